@@ -478,17 +478,24 @@ def full_case(rng, shape=None, hostile=False, auto=None, also=None):
     c['consumer'] = True
     gen_libs(rng, c, shape, also=also)
     gen_includes(rng, c, rng.randint(1, 3))
-    c['auto_fill'] = rng.random() < 0.4 if auto is None else auto
+    c['auto_fill'] = rng.random() < 0.4 if auto is None else bool(auto)
     if c['auto_fill']:
         c['omit'] = sorted(rng.sample(['name', 'version', 'includes', 'libs'],
                                       rng.randint(0, 4)))
-        if auto and 'libs' not in c['omit']:
+        if auto == 'empty-libs' and c['pc_libs']:
+            c['omit'] = [o for o in c['omit'] if o != 'libs']
+        elif auto and 'libs' not in c['omit']:
             c['omit'] = sorted(c['omit'] + ['libs'])
         if 'libs' in c['omit']:
             # install()ed libraries become the public ones; libs_private would be
             # installed by pkg_config itself and thereby become public as well
             c['pc_libs'] += c['pc_libs_private']
             c['pc_libs_private'] = []
+        elif c['pc_libs'] and auto == 'empty-libs':
+            # libs=[] said explicitly is not an omitted libs=: the libraries the script
+            # install()s itself stay out of the description
+            c['installed_only_libs'] = list(c['pc_libs'])
+            c['pc_libs'] = []
     if rng.random() < 0.3:
         c['project']['version'] = None
     c['name'] = rng.choice(['foo', 'foo-bar', 'Foo_1', 'foo.bar', 'foo+'])
@@ -760,7 +767,8 @@ def cases(tier, seed):
         shape = shapes[i % len(shapes)]
         # every shape once with explicit arguments, once filled from install()
         out.append(full_case(rng, shape, hostile=(i % 3 == 2),
-                             auto=(i // len(shapes)) % 2 == 1,
+                             auto=((i // len(shapes)) % 2 == 1) and
+                             ('empty-libs' if i % 4 == 1 else True),
                              also=True if i % len(shapes) == 3 else None))
     # phase C2: library() objects under every buildable library mode; auto_fill
     # from the install()ed set and explicit libs=
@@ -919,6 +927,9 @@ def render_project(c):
         kw.append('includes=[%s]' % ', '.join(hvars))
     if 'libs' not in omit and pub:
         kw.append('libs=[%s]' % ', '.join(pub))
+    elif c.get('installed_only_libs'):
+        lines.append('install(%s)' % ', '.join(var[n] for n in c['installed_only_libs']))
+        kw.append('libs=[]')
     if priv:
         kw.append('libs_private=[%s]' % ', '.join(priv))
     for key in ('options', 'link_options', 'link_options_private'):
